@@ -54,8 +54,11 @@ let dispatch_aes fn args = match fn, args with
      | "s_alg12", [r; pw; prep; o; oe; u] ->
        (match alg12 h256 h384 h512 ce cd (fun _ -> opt_bytes prep) (n_of_hex r) (b pw) (b o) (b oe) (b u) with
         | None -> "err" | Some (true, k) -> "ok|" ^ hex_of_bytes k | Some (false, _) -> "no")
-     | "aes_calc", [r; upw; opw; ru; ro; fk] ->
-       (match c_calc_ou_aes h256 h384 h512 ce (n_of_hex r) (b upw) (b opw) (b ru) (b ro) (b fk) with
+     | "aes_calc", [r; upw; uprep; opw; oprep; ru; ro; fk] ->
+       let prep x = if hex_of_bytes x = String.lowercase_ascii upw then opt_bytes uprep
+                    else if hex_of_bytes x = String.lowercase_ascii opw then opt_bytes oprep
+                    else failwith "prep: unexpected password" in
+       (match c_calc_ou_aes h256 h384 h512 ce prep (n_of_hex r) (b upw) (b opw) (b ru) (b ro) (b fk) with
         | None -> "none"
         | Some (((u, o), ue), oe) -> String.concat "|" (List.map hex_of_bytes [u; o; ue; oe]))
      | "s_alg89", [r; upw; uprep; opw; oprep; vsu; ksu; vso; kso; fk] ->
